@@ -77,6 +77,8 @@ def same(a, b):
         return str.__eq__(a, b) is True
     if type(a) is not type(b):
         return False
+    if type(a) is int:
+        return a == b
     try:
         return repr(a) == repr(b)
     except Exception:  # noqa
@@ -197,7 +199,44 @@ TEMPLATES_A = [
 ]
 FIXED_TEXTS = ["{[1]: 2}", "{ {} }", "{ {1: 2}: 3 }", "{[]}", "-" * 3000 + "1", "not " * 2000 + "1", "1" + "+1j" * 2500,
                "[" * 60 + "]" * 60, "1\x00", "9" * 4400, "'" + "a" * 10, "1 if 1 else 2", "f'{1}'", "__import__('os')"]
-NODES = ["T:abc", "T:1", "T:[", "T:]", "T:, ", "T: ", "C:1", "C:2.5", "C:[1, 2]", "C:none", "C:true", "S:a", "S:1", "S:", "V"]
+import collections
+import enum
+
+
+class Color(enum.IntEnum):
+    RED = 1
+
+
+Pt = collections.namedtuple("Pt", "x y")
+
+
+class SubList(list):
+    pass
+
+
+class SubDict(dict):
+    pass
+
+
+# constant-only expressions whose value is NOT a plain literal value: instances of subclasses of int / tuple / list /
+# dict / str produced by a filter on a literal, containers holding Markup, integers beyond the int-str limit.
+# (template expression, the Python value it denotes)
+XFILTERS = {"as_enum": lambda v: Color(v), "as_nt": lambda v: Pt(*v), "as_od": lambda v: collections.OrderedDict(v),
+            "as_sublist": lambda v: SubList(v), "as_subdict": lambda v: SubDict(v), "as_frozen": lambda v: frozenset(v)}
+
+
+def xnodes():
+    from markupsafe import Markup
+    return {"enum": ("1|as_enum", Color(1)), "nt": ("[1, 2]|as_nt", Pt(1, 2)), "od": ("{'a': 1}|as_od", collections.OrderedDict({"a": 1})),
+            "sublist": ("[1, 2]|as_sublist", SubList([1, 2])), "subdict": ("{'a': 1}|as_subdict", SubDict({"a": 1})),
+            "frozen": ("[1]|as_frozen", frozenset([1])), "markuplist": ("['a'|safe]", [Markup("a")]),
+            "markuptuple": ("('<b>'|safe, 1)", (Markup("<b>"), 1)), "sorted": ("[3, 1]|sort", [1, 3]),
+            "bigint": ("10 ** 5000", 10 ** 5000), "inf": ("1e308 * 10", float("inf")), "range": ("range(3)", range(3))}
+
+
+NODES = ["T:abc", "T:1", "T:[", "T:]", "T:, ", "T: ", "C:1", "C:2.5", "C:[1, 2]", "C:none", "C:true", "S:a", "S:1", "S:", "V",
+         "X:enum", "X:nt", "X:od", "X:sublist", "X:subdict", "X:frozen", "X:markuplist", "X:markuptuple", "X:sorted", "X:bigint",
+         "X:inf", "X:range"]
 LOADER = {"p": "{% block b %}{{ x }}{% endblock %}", "p2": "{{ self.b() }}{% if false %}{% block b %}{% endblock %}{% endif %}",
           "inc": "{{ x }}", "lib": "{% set v = 7 %}"}
 
@@ -216,6 +255,10 @@ def node_template(nodes, vals):
         elif k == "S":
             src += "{{ '" + body + "' }}"
             pieces.append(body)
+        elif k == "X":
+            expr, value = xnodes()[body]
+            src += "{{ " + expr + " }}"
+            pieces.append(value)
         else:
             src += "{{ v%d }}" % vi
             pieces.append(vals[vi])
@@ -253,7 +296,9 @@ def run(ctx):
         """the combination docs/nativetypes.rst describes"""
 
     def mk(cls, is_async, **kw):
-        return cls(enable_async=is_async, loader=jinja2.DictLoader(LOADER), **kw)
+        env = cls(enable_async=is_async, loader=jinja2.DictLoader(LOADER), **kw)
+        env.filters.update(XFILTERS)
+        return env
 
     axis_envs = {
         "plain": {a: mk(NativeEnvironment, a) for a in (False, True)},
@@ -294,7 +339,7 @@ def run(ctx):
     jobs = []
     for label, src, vars_, predicted in cases:
         axis = ctx.rng.choice(AXES)
-        if axis == "constructor" and "'" in src and any(n in src for n in LOADER):
+        if axis == "constructor" and (("'" in src and any(n in src for n in LOADER)) or "|as_" in src):
             axis = "plain"
         ctx.count("axis_" + axis)
         try:
@@ -304,7 +349,11 @@ def run(ctx):
                 ts = axis_envs[axis][False].from_string(src)
                 ta = axis_envs[axis][True].from_string(src)
         except Exception as e:  # noqa
+            # every generated template is valid: a failure to compile is judged, not skipped
             ctx.count("template_rejected")
+            if ctx.dist["template_rejected"] <= 3:       # one input class: do not crowd out other findings
+                ctx.reject({"stream": label, "template": src, "axis": axis}, f"the template does not compile: {type(e).__name__}: {str(e)[:80]}",
+                           "native: a valid template does not compile: " + type(e).__name__)
             continue
         if predicted is None:
             try:
@@ -328,6 +377,13 @@ def run(ctx):
                            "native: async-enabled environment yields other output nodes than the sync one")
         else:
             pieces = apieces = predicted
+            if len(pieces) > 1:
+                try:
+                    for p_ in pieces:
+                        str(p_)
+                except Exception:  # noqa  (an integer beyond CPython's int-str limit cannot be joined: a raising render)
+                    ctx.count("render_raises")
+                    continue
         jobs.append((label, src, vars_, ts, ta, pieces, apieces))
     lines, meta = [], []
     for j, (label, src, vars_, ts, ta, pieces, apieces) in enumerate(jobs):
